@@ -1,5 +1,7 @@
 import Tmv.Lemmas.ConsSign
 import Tmv.Lemmas.ConsLock2
+import Tmv.Lemmas.ConsGuard
+import Tmv.Lemmas.ConsQuorum
 /-! # C02 — a correct validator never equivocates and every vote it casts is justified
 
 Theorems about the node model `Tmv.Cons` (Tmv/Model/Cons.lean), which follows
@@ -40,14 +42,44 @@ theorem one_per_step (c : Cfg) (hc : c.checkHRS = true) (is : List Input) :
     have := h.uniq _ h₁ _ h₂ r 1 (.prop b pol) (.prop b' pol') rfl rfl
     cases this; exact ⟨rfl, rfl⟩
 
+/-- **one_per_step_by_guards** (first line of defence, the step guards at the top of every `enterX`):
+for EVERY configuration — whatever the signer does, including one that signs anything — and every
+input list in which no timeout names a round the node has not reached, the node signs at most one
+proposal, one prevote and one precommit per round. (`state_machine_alone_needs_reached_round` shows
+that for this line of defence the hypothesis on timeouts cannot be dropped.) -/
+theorem one_per_step_by_guards (c : Cfg) (is : List Input) (hnf : NoFutureTimeout c .init is) :
+    (∀ t r b b', Output.signVote t r b ∈ (run c .init is).out →
+        Output.signVote t r b' ∈ (run c .init is).out → b = b') ∧
+    (∀ r b pol b' pol', Output.signProposal r b pol ∈ (run c .init is).out →
+        Output.signProposal r b' pol' ∈ (run c .init is).out → b = b' ∧ pol = pol') := by
+  have h : G (run c .init is) := run_G is hnf init_G
+  constructor
+  · intro t r b b' h₁ h₂
+    cases t with
+    | prevote => have := h.uniq _ h₁ _ h₂ 4 rfl rfl rfl; cases this; rfl
+    | precommit => have := h.uniq _ h₁ _ h₂ 6 rfl rfl rfl; cases this; rfl
+  · intro r b pol b' pol' h₁ h₂
+    have := h.uniq _ h₁ _ h₂ 3 rfl rfl rfl
+    cases this; exact ⟨rfl, rfl⟩
+
 /-- **precommit_justified**: every precommit for a block `b` the node signs in round `r` is backed
-by a +2/3 prevote majority for exactly `b` recorded in its round-`r` prevote set (the vote set
-records a majority only when the bucket of `b` crosses `total*2/3+1`, and the first majority of a
-round is never replaced — `Tmv.Cons.Stable`). Any signer (FilePV or one that signs anything). -/
+by its round-`r` prevote set: that set has recorded a +2/3 majority for exactly `b` (the first majority
+of a round is never replaced — `Tmv.Cons.Stable`), and the prevotes it holds for `b` carry more than
+two thirds of the total power (`3·sum > 2·total`). Any signer (FilePV or one that signs anything). -/
 theorem precommit_justified (c : Cfg) (is : List Input) (hnf : NoFutureTimeout c .init is) :
     ∀ r b, Output.signVote .precommit r (some b) ∈ (run c .init is).out →
-      maj23Of ((run c .init is).votes.prevotes (r : Int)) = some (some b) :=
-  run_J is hnf (by intro r b h; simp [NodeState.init] at h)
+      ∃ vs, (run c .init is).votes.prevotes (r : Int) = some vs ∧ vs.maj23 = some (some b) ∧
+        2 * c.total < 3 * vs.blockSum (some b) := by
+  intro r b h
+  have hm : maj23Of ((run c .init is).votes.prevotes (r : Int)) = some (some b) :=
+    run_J is hnf (by intro r b h; simp [NodeState.init] at h) r b h
+  have hq : QH c (run c .init is).votes := run_Q is (QH.init c)
+  cases hv : (run c .init is).votes.prevotes (r : Int) with
+  | none => rw [hv] at hm; simp [maj23Of] at hm
+  | some vs =>
+    rw [hv] at hm
+    have hm' : vs.maj23 = some (some b) := by simpa [maj23Of] using hm
+    exact ⟨vs, rfl, hm', (quorum_iff c _).1 (hq.getVoteSet (t := .prevote) hv _ hm')⟩
 
 /-- **prevote_respects_lock**: if the node signed a precommit for block `b` in round `r` and a
 prevote for anything else (`nil` included) in a later round `r'`, then a +2/3 prevote majority for a
